@@ -171,7 +171,7 @@ REG.contract('BatchPlanning.generate_plan', world=plan_world,
                        'est_duration', 'delay_flag', 'task_status', 'pred', 'delay', 'delay_offset', 'workflow_offset', 'graph_id', 'flops',
                        'task_data', 'io')] + ['heap:WorkflowPlan.' + f for f in ('id', 'est', 'eft', 'tasks', 'exec_order', 'status',
                        'max_ingest', 'graph', 'min_resources', 'max_resources', 'priority')],
-             props=['C14'])
+             props=['C14', 'C03'])
 REG.loop('BatchPlanning.generate_plan', 0, inv=_gp_inv,
          modifies_locals=['task', 'tid', 'dm', 'pred', 'predecessors', 'succ', 'successors', 'edge_costs', 'data', 'element', 'nm', 'val',
                           'est', 'eft', 'machine_id', 'task_compute', 'task_data', 'taskobj'],
